@@ -3,11 +3,19 @@
 package static
 
 import (
+	"fmt"
 	"strconv"
 	"strings"
 	"testing"
+	"time"
 
+	metav1 "k8s.io/apimachinery/pkg/apis/meta/v1"
 	"sigs.k8s.io/controller-runtime/pkg/client"
+	gatewayv1 "sigs.k8s.io/gateway-api/apis/v1"
+	"sigs.k8s.io/gateway-api/apis/v1alpha2"
+
+	ngfAPIv1alpha1 "github.com/nginx/nginx-gateway-fabric/apis/v1alpha1"
+	ngfAPIv1alpha2 "github.com/nginx/nginx-gateway-fabric/apis/v1alpha2"
 
 	vu "github.com/nginx/nginx-gateway-fabric/internal/verifutil"
 )
@@ -81,6 +89,49 @@ func c14Compete(r *vu.Rng, c *vsCluster) {
 	}
 }
 
+// c14Policies makes policies of one kind compete on the Routes of the state: for two HTTPRoutes of one namespace an
+// older policy on the first, a policy on both and a younger one on the second (a chain: whether the middle one is
+// still valid decides about the third), plus pairs on single Routes; equal timestamps are common. Telemetry is switched
+// on through an NginxProxy, which the returned objects include; the caller points the GatewayClasses at it.
+func c14Policies(r *vu.Rng, c *vsCluster) []client.Object {
+	var objs []client.Object
+	objs = append(objs, &ngfAPIv1alpha1.NginxProxy{ObjectMeta: metav1.ObjectMeta{Name: "np", Generation: 1},
+		Spec: ngfAPIv1alpha1.NginxProxySpec{Telemetry: &ngfAPIv1alpha1.Telemetry{Exporter: &ngfAPIv1alpha1.TelemetryExporter{Endpoint: "otel.example.com:4317"}}}})
+	op := func(ns, name string, ts int64, targets ...string) client.Object {
+		p := &ngfAPIv1alpha2.ObservabilityPolicy{ObjectMeta: metav1.ObjectMeta{Namespace: ns, Name: name, Generation: 1, CreationTimestamp: metav1.NewTime(time.Unix(1700000000+ts, 0))},
+			Spec: ngfAPIv1alpha2.ObservabilityPolicySpec{Tracing: &ngfAPIv1alpha2.Tracing{Strategy: ngfAPIv1alpha2.TraceStrategyParent}}}
+		for _, tg := range targets {
+			p.Spec.TargetRefs = append(p.Spec.TargetRefs, v1alpha2.LocalPolicyTargetReference{Group: gatewayv1.GroupName, Kind: "HTTPRoute", Name: gatewayv1.ObjectName(tg)})
+		}
+		return p
+	}
+	byNS := map[string][]string{}
+	var nss []string
+	for _, rt := range c.Routes {
+		if rt.GRPC {
+			continue
+		}
+		if len(byNS[rt.NS]) == 0 {
+			nss = append(nss, rt.NS)
+		}
+		byNS[rt.NS] = append(byNS[rt.NS], rt.Name)
+	}
+	k := 0
+	for _, ns := range nss {
+		names := byNS[ns]
+		ts := func() int64 { return int64(r.Intn(3)) }
+		if len(names) >= 2 {
+			a, b := names[0], names[1]
+			t1 := ts()
+			objs = append(objs, op(ns, fmt.Sprintf("op%d-a", k), t1, a), op(ns, fmt.Sprintf("op%d-b", k), t1+int64(r.Intn(2)), a, b), op(ns, fmt.Sprintf("op%d-c", k), t1+1+int64(r.Intn(2)), b))
+		} else if r.Bool() {
+			objs = append(objs, op(ns, fmt.Sprintf("op%d-a", k), ts(), names[0]), op(ns, fmt.Sprintf("op%d-b", k), ts(), names[0]))
+		}
+		k++
+	}
+	return objs
+}
+
 func TestVerifC14(t *testing.T) {
 	out := vu.Open("C14")
 	out.ShardLen(6)
@@ -105,6 +156,15 @@ func TestVerifC14(t *testing.T) {
 			}
 		}
 		objs := c.Objects()
+		withPolicies := r.Chance(1, 3)
+		if withPolicies {
+			for _, o := range objs {
+				if gc, ok := o.(*gatewayv1.GatewayClass); ok {
+					gc.Spec.ParametersRef = &gatewayv1.ParametersReference{Group: ngfAPIv1alpha1.GroupName, Kind: "NginxProxy", Name: "np"}
+				}
+			}
+			objs = append(objs, c14Policies(r, c)...)
+		}
 		var runTerms []string
 		var humans []map[string]any
 		for k := 0; k < runs; k++ {
@@ -139,6 +199,7 @@ func TestVerifC14(t *testing.T) {
 		out.Case(term, map[string]any{"cluster": c, "runs": humans}, len(c.Routes) >= 3, c.Coq())
 		out.Tally("routes", strconv.Itoa(len(c.Routes)))
 		out.Tally("gateways", strconv.Itoa(len(c.Gateways)))
+		out.Tally("competing_policies", strconv.FormatBool(withPolicies))
 	}
 	out.Close("C14.Check", "")
 }
